@@ -63,10 +63,13 @@ func loadPrimes() {
 // successive pairs starting from a seed-drawn offset, so parties get distinct moduli.
 func InstallPrimes(c *fw.Ctx) {
 	loadPrimes()
-	primeNext = int(c.CaseKey % uint64(len(primePairs)))
+	// The pair is chosen by bytes read from the *calling party's* randomness stream, so that the
+	// choice is a function of that party's stream alone (independent of delivery order).
 	sample.PrimeSource = func() (p, q *saferith.Nat) {
-		pr := primePairs[primeNext%len(primePairs)]
-		primeNext++
+		var b [4]byte
+		_, _ = rand.Read(b[:])
+		k := (int(b[0])<<16 | int(b[1])<<8 | int(b[2])) % len(primePairs)
+		pr := primePairs[k]
 		return new(saferith.Nat).SetNat(pr[0]), new(saferith.Nat).SetNat(pr[1])
 	}
 }
